@@ -70,10 +70,13 @@ pub struct WorldCfg {
     pub pool: usize,
     /// retry policy of the default execution profile (None = the driver's default policy)
     pub retry: Option<Arc<dyn scylla::policies::retry::RetryPolicy>>,
+    /// Some(n): the single node (nodes must be 1) is a ScyllaDB node with n shards and a shard-aware port; the pool is
+    /// then PerShard(pool)
+    pub shards: Option<u16>,
 }
 impl WorldCfg {
     pub fn new(nodes: usize) -> WorldCfg {
-        WorldCfg { nodes, owner_is_contact_point: nodes == 1, keepalive: None, pool: 1, retry: None }
+        WorldCfg { nodes, owner_is_contact_point: nodes == 1, keepalive: None, pool: 1, retry: None, shards: None }
     }
 }
 
@@ -81,7 +84,11 @@ impl World {
     pub async fn new(cfg: &WorldCfg) -> Result<World, String> {
         let mut b = MockCluster::builder();
         if cfg.nodes == 1 {
-            b = b.node(NodeSpec::new("dc1", "r1", vec![0, i64::MAX]));
+            let n = NodeSpec::new("dc1", "r1", vec![0, i64::MAX]);
+            b = b.node(match cfg.shards {
+                Some(nr) => n.scylla(nr, 12),
+                None => n,
+            });
         } else {
             let (all, none) = (vec![0, i64::MAX], vec![i64::MIN + 1]);
             let (t0, t1) = if cfg.owner_is_contact_point { (all, none) } else { (none, all) };
@@ -108,7 +115,7 @@ impl World {
         let profile = pb.build();
         let mut sb = SessionBuilder::new()
             .known_node(cluster.contact_point(0))
-            .pool_size(PoolSize::PerHost(NonZeroUsize::new(cfg.pool.max(1)).unwrap()))
+            .pool_size(if cfg.shards.is_some() { PoolSize::PerShard(NonZeroUsize::new(cfg.pool.max(1)).unwrap()) } else { PoolSize::PerHost(NonZeroUsize::new(cfg.pool.max(1)).unwrap()) })
             .default_execution_profile_handle(profile.into_handle());
         if let Some((i, t)) = cfg.keepalive {
             sb = sb.keepalive_interval(i).keepalive_timeout(t);
